@@ -135,6 +135,23 @@ impl StateCheck for C14 {
                         };
                         let cfg = format!("loc={loc} k_exp={k} load_matching={lm} edge=+[{}]", removed.trim());
                         compare(&pe, &ce, k, &cfg, out);
+                        // the same edge taken through the library: the PV component is pushed into the building that was read
+                        // without it, and the set is normalized again (PENINSULA only: the edge, not the factors, is the point)
+                        if loc == "PENINSULA" && k != 0.5 {
+                            if let Some(extra) = crate::hist::component_of(removed.trim()) {
+                                let mut c2 = pc.clone();
+                                if c2.data.iter().all(|c| cteepbd::types::HasValues::values(c).len() == cteepbd::types::HasValues::values(&extra).len()) {
+                                    c2.data.push(extra);
+                                    if let Ok(c2) = c2.normalize() {
+                                        out.evals += 1;
+                                        if let Ok(ce2) = subj::eval(&c2, f, k, 1.0, lm) {
+                                            out.regime("edge_through_the_library");
+                                            compare(&pe, &ce2, k, &format!("{cfg} (pushed into the parsed building, normalize() again)"), out);
+                                        }
+                                    }
+                                }
+                            }
+                        }
                     }
                 }
             }
@@ -168,8 +185,35 @@ fn grid_slots() -> Vec<Vec<Letter>> {
     vec![ctxs, base_letters, incs]
 }
 
+/// FINE GRID: a large use (50 000 kWh) with the base PV on a grid of 10 kWh from 0 to 15 000 kWh (production/use ratios
+/// 0 .. 0.3 in steps of 0.0002) and increments of 2 and 10 kWh: a kink of the matching factor at a small ratio x0 lowers the
+/// used production by about x0^2 * use, which only an increment smaller than that can show (x0 >= 0.01 here). And the mirror
+/// image: a small use (100 kWh) under PV of 1 .. 120 times the use.
+fn fine_grid_slots(low: bool) -> Vec<Vec<Letter>> {
+    let raw = |s: String| Line::Raw(s);
+    if low {
+        let ctxs = vec![
+            Letter::many(vec![raw("0, CONSUMO, ILU, ELECTRICIDAD, 50000".into())]),
+            Letter::many(vec![raw("0, CONSUMO, ILU, ELECTRICIDAD, 50000".into()), raw("0, CONSUMO, NEPB, ELECTRICIDAD, 700".into())]),
+        ];
+        let bases: Vec<Letter> = (0..=1500).map(|j| if j == 0 { Letter::many(vec![]) } else { Letter::one(raw(format!("0, PRODUCCION, EL_INSITU, {}", j * 10))) }).collect();
+        let incs: Vec<Letter> = [2, 10].iter().map(|d| Letter::one(raw(format!("9, PRODUCCION, EL_INSITU, {d}")))).collect();
+        vec![ctxs, bases, incs]
+    } else {
+        let ctxs = vec![
+            Letter::many(vec![raw("0, CONSUMO, ILU, ELECTRICIDAD, 100".into())]),
+            Letter::many(vec![raw("0, CONSUMO, ILU, ELECTRICIDAD, 100".into()), raw("0, CONSUMO, NEPB, ELECTRICIDAD, 3000".into())]),
+        ];
+        let bases: Vec<Letter> = (2..=240).map(|j| Letter::one(raw(format!("0, PRODUCCION, EL_INSITU, {}", j * 50)))).collect();
+        let incs: Vec<Letter> = [5, 50].iter().map(|d| Letter::one(raw(format!("9, PRODUCCION, EL_INSITU, {d}")))).collect();
+        vec![ctxs, bases, incs]
+    }
+}
+
 pub fn run(ctx: &Ctx) -> i32 {
     let shared = Shared::new("C14", ctx);
+    explore(ctx, "FINE GRID: use 50 000 kWh, PV 0 .. 15 000 kWh in steps of 10 kWh, increments of 2 and 10 kWh", Layered { slots: fine_grid_slots(true), bases: crate::alpha::bases(false) }, C14, shared.clone());
+    explore(ctx, "FINE GRID (mirror): use 100 kWh, PV 100 .. 12 000 kWh in steps of 50 kWh, increments of 5 and 50 kWh", Layered { slots: fine_grid_slots(false), bases: crate::alpha::bases(false) }, C14, shared.clone());
     explore(ctx, "GRID: dense grid of production/use ratios x small increments x 4 contexts", Layered { slots: grid_slots(), bases: crate::alpha::bases(false) }, C14, shared.clone());
     flow_models(ctx, &shared, C14, FlowSpec { quick_depth: 3, thorough_depth: 4, extra: vec![], deep: true, heavy_oracle: false, seeded: true, t3: true, valuesets: false });
     finish(
